@@ -360,7 +360,7 @@ def fmtTail (E : Env) (errs : List String) (s : PState) : String :=
     ([toString errs.length] ++ errs.map hexOfString ++
      [toString s.pt.pos.off, toString s.pt.pos.line, toString s.pt.pos.col, toString s.exprCnt,
       toString s.maxFailPos.off, toString s.maxFailPos.line, toString s.maxFailPos.col,
-      toString s.maxFailExpected.length] ++ s.maxFailExpected.map hexOfString ++
+      toString s.maxFailExpected.length] ++ s.maxFailExpected.reverse.map hexOfString ++
      [if E.useState then fmtStore s.state else "0", fmtStore s.global,
       fmtChoices (!E.flags.optimize) s.choiceCnt,
       toString s.trace.length] ++ s.trace.reverse.map fmtEvent)
